@@ -56,6 +56,7 @@ func (w *ExpWorld) Bucket() *rosmar.Bucket { return w.h }
 func (w *ExpWorld) Alphabet(tier int) []string {
 	var ops []string
 	exps := []string{"0", "r10", "r30", "a20"}
+	ops = append(ops, "set/r30d") // exactly 30 days: still an offset
 	for _, ep := range []string{"set", "add", "wcas", "incr", "wwx", "swm"} {
 		for _, e := range exps {
 			if tier == 0 && (ep == "add" || ep == "incr" || ep == "swm") && (e == "a20" || e == "0") {
@@ -66,6 +67,9 @@ func (w *ExpWorld) Alphabet(tier int) []string {
 	}
 	for _, e := range exps {
 		ops = append(ops, "touch/"+e)
+	}
+	if tier > 0 {
+		ops = append(ops, "uxe/r10", "upd/r10", "upd/0", "wux/r10", "res/r30", "dwx", "wtx", "updonly/r10")
 	}
 	ops = append(ops, "setp", "wwxp", "uxp", "del", "j.set/r10", "j.set/r30", "b.set/r10", "b.set/r30", "b.touch/0", "adv/5", "adv/15", "adv/40")
 	if w.cfg.Disk {
@@ -80,6 +84,8 @@ func expArg(e string) uint32 {
 		return 10
 	case "r30":
 		return 30
+	case "r30d":
+		return 30 * 24 * 3600
 	case "a20":
 		return NowSecs() + 20
 	}
@@ -144,6 +150,39 @@ func (w *ExpWorld) Apply(op string) (string, []Violation) {
 		e := wantExp(parts[1]) // WithMeta takes absolute expiries
 		err = cl.SetWithMeta(ctx, key, cur, cur+0x10000, e, nil, []byte("8"), sgbucket.FeedDataTypeJSON)
 		newExp = &e
+	case "uxe":
+		_, err = cl.UpdateXattrs(ctx, key, expArg(parts[1]), cur, map[string][]byte{"_t": []byte(`{"a":4}`)}, nil)
+		e := wantExp(parts[1])
+		newExp = &e
+	case "upd":
+		ea := expArg(parts[1])
+		_, err = cl.Update(key, 0, func([]byte) ([]byte, *uint32, bool, error) { return []byte("11"), &ea, false, nil })
+		e := wantExp(parts[1])
+		newExp = &e
+	case "updonly":
+		ea := expArg(parts[1])
+		_, err = cl.Update(key, 0, func([]byte) ([]byte, *uint32, bool, error) { return nil, &ea, false, nil })
+		e := wantExp(parts[1])
+		newExp = &e
+	case "wux":
+		ea := expArg(parts[1])
+		_, err = cl.WriteUpdateWithXattrs(ctx, key, []string{"_s"}, 0, nil, &sgbucket.MutateInOptions{}, func(doc []byte, x map[string][]byte, cas uint64) (sgbucket.UpdatedDoc, error) {
+			return sgbucket.UpdatedDoc{Doc: []byte("12"), Xattrs: map[string][]byte{"_s": []byte(`{"a":5}`)}, Expiry: &ea}, nil
+		})
+		e := wantExp(parts[1])
+		newExp = &e
+	case "res":
+		_, err = cl.WriteResurrectionWithXattrs(ctx, key, expArg(parts[1]), []byte("13"), map[string][]byte{"_s": []byte(`{"a":6}`)}, nil)
+		e := wantExp(parts[1])
+		newExp = &e
+	case "dwx":
+		err = cl.DeleteWithXattrs(ctx, key, nil)
+		z := uint32(0)
+		newExp = &z
+	case "wtx":
+		_, err = cl.WriteTombstoneWithXattrs(ctx, key, 0, cur, map[string][]byte{"_s": []byte(`{"a":7}`)}, nil, false, nil)
+		z := uint32(0)
+		newExp = &z
 	case "touch":
 		_, err = cl.Touch(key, expArg(parts[1]))
 		e := wantExp(parts[1])
@@ -201,6 +240,8 @@ func (w *ExpWorld) Apply(op string) (string, []Violation) {
 					if post.Exp != doc.exp {
 						c.add("C14", "preserve", "PreserveExpiry write changed the expiry from %d to %d", doc.exp, post.Exp)
 					}
+				case newExp != nil && !post.HasValue && *newExp != 0:
+					// an expiry given to a key that ends up without a body means nothing: spec-silent
 				case newExp != nil:
 					if post.Exp != *newExp {
 						c.add("C14", "expiry", "%s stored expiry %d, want %d (now=%d)", op, post.Exp, *newExp, now)
